@@ -165,6 +165,32 @@ pub fn space_histories(c: &SpaceCfg, f: &mut dyn FnMut(&str, &[&Val])) {
     }
 }
 
+/// (e) containers whose element count crosses the 16-bit boundary (variable-size elements, so
+/// that no fixed-width fast path hides a counter): lists / sets of 65535, 65536, 65537 one-byte
+/// strings and empty structs, maps of 32767, 32768, 32769 entries, top level and as a field
+pub fn space_large(c: &SpaceCfg, f: &mut dyn FnMut(&str, &Val)) {
+    let counts: &[usize] = if c.thorough { &[65535, 65536, 65537, 70000, 131073] } else { &[65535, 65536, 65537] };
+    for &n in counts {
+        let strs: Vec<Val> = (0..n).map(|i| Val::Bin(vec![b'a' + (i % 26) as u8])).collect();
+        let vals = [
+            Val::List(T::Bin, strs.clone()),
+            Val::Set(T::Bin, strs.clone()),
+            Val::List(T::Struct, (0..n).map(|_| Val::Struct(vec![])).collect()),
+            Val::List(T::List, (0..n).map(|_| Val::List(T::I8, vec![])).collect()),
+        ];
+        for v in &vals {
+            f("e:large-container", v);
+            f("e:large-container", &Val::Struct(vec![(1, v.clone()), (2, Val::I32(7))]));
+        }
+    }
+    let mcounts: &[usize] = if c.thorough { &[32767, 32768, 32769, 65537] } else { &[32767, 32768, 32769] };
+    for &n in mcounts {
+        let m = Val::Map(T::I32, T::Bin, (0..n).map(|i| (Val::I32(i as i32), Val::Bin(vec![b'v']))).collect());
+        f("e:large-container", &m);
+        f("e:large-container", &Val::Struct(vec![(1, m.clone()), (2, Val::I32(7))]));
+    }
+}
+
 /// single values of all value spaces
 pub fn all_values(c: &SpaceCfg, f: &mut dyn FnMut(&str, &Val)) {
     space_shapes(c, f);
